@@ -532,6 +532,80 @@ def rw_replace(toks, old, new, report, what="replace", expect=None, lo=0, hi=Non
     return out
 
 
+# --- closures ----------------------------------------------------------------------------
+
+def find_closures(toks):
+    """closures in source order: (first_bar, last_bar, body_start, body_end_excl, is_block)"""
+    res = []
+    i, n = 0, len(toks)
+    while i < n:
+        t = toks[i]
+        if t.kind == PUNCT and t.text == "|":
+            p = _prev_sig(toks, i)
+            prev = toks[p].text if p >= 0 else "{"
+            is_start = prev in ("(", ",", "=", "{", ";", "move", "return") or \
+                (prev == ">" and p >= 1 and toks[p - 1].text == "=")
+            if prev == "=" and p >= 1 and toks[p - 1].text in ("|", "=", "!", "<", ">"):
+                is_start = False
+            if is_start:
+                if i + 1 < n and toks[i + 1].kind == PUNCT and toks[i + 1].text == "|":
+                    close = i + 1
+                else:
+                    j = i + 1
+                    close = None
+                    while j < n:
+                        tj = toks[j]
+                        if tj.kind == PUNCT and tj.text in OPEN:
+                            j = match_close(toks, j) + 1; continue
+                        if tj.kind == PUNCT and tj.text == "|":
+                            close = j; break
+                        if tj.kind == PUNCT and tj.text in CLOSE or tj.text == ";":
+                            break
+                        j += 1
+                    if close is None:
+                        i += 1; continue
+                bs = _next_sig(toks, close)
+                if bs < n and toks[bs].text == "{":
+                    be = match_close(toks, bs) + 1
+                    block = True
+                else:
+                    j = bs
+                    while j < n:
+                        tj = toks[j]
+                        if tj.kind == PUNCT and tj.text in OPEN:
+                            j = match_close(toks, j) + 1; continue
+                        if tj.kind == PUNCT and (tj.text in CLOSE or tj.text in (",", ";")):
+                            break
+                        j += 1
+                    be = j
+                    block = False
+                res.append((i, close, bs, be, block))
+                i = close + 1
+                continue
+        i += 1
+    return res
+
+
+def rw_closure_specs(toks, specs, rep, qual):
+    """R14: closure number k gets an explicit, hand-written contract that Verus checks
+    against the closure's real body: `|p| E` -> `|p| -> (b: T) ensures Q { E }`."""
+    cl = find_closures(toks)
+    out = list(toks)
+    for (k, retdecl, ens) in sorted(specs, key=lambda x: -x[0]):
+        if k >= len(cl):
+            rep.append(("LOST", f"closure ordinal {k} not found ({len(cl)} closures): contract not attached"))
+            continue
+        (a, close, bs, be, block) = cl[k]
+        hdr = f" -> {retdecl} ensures {ens} "
+        if block:
+            out[bs:bs] = [T("raw", hdr)]
+        else:
+            out[be:be] = [T("raw", " }")]
+            out[bs:bs] = [T("raw", hdr + "{ ")]
+        rep.append(("R14", f"closure {k}: contract `{retdecl} ensures {ens}` attached (body unchanged)"))
+    return out
+
+
 # --- loops -------------------------------------------------------------------------------
 
 def find_loops(toks, lo, hi):
@@ -620,6 +694,8 @@ class Extract:
     rules: set = field(default_factory=set)
     ret: str = ""
     desugar_for: list = field(default_factory=list)
+    closures: list = field(default_factory=list)   # (ordinal, retdecl, ensures)
+    entry: list = field(default_factory=list)      # proof/ghost text inserted at function entry
     tmpl_line: int = 0
     rename: str = ""
 
@@ -692,6 +768,10 @@ def parse_template(text):
             cur.replaces.append((mm.group(1), _unesc(mm.group(2)), _unesc(mm.group(3)),
                                  int(mm.group(4)) if mm.group(4) else None))
             last = None; i += 1; continue
+        mm = re.match(r"^entry\s*:\s?(.*)$", body)
+        if mm:
+            ins = ["entry", "", 1, mm.group(1)]
+            cur.entry.append(ins); last = ("insert", ins); i += 1; continue
         mm = re.match(r"^rules\s*:\s*(.*)$", body)
         if mm:
             cur.rules |= set(mm.group(1).replace(",", " ").split()); i += 1; continue
@@ -702,6 +782,13 @@ def parse_template(text):
         if mm:
             cur.desugar_for = [int(x) for x in mm.group(1).replace(",", " ").split()]
             i += 1; continue
+        mm = re.match(r"^closure\s+(\d+)\s*->\s*(\([^)]*\))\s*(?:requires\s+(.*?)\s+)?ensures\s*:\s?(.*)$", body)
+        if mm:
+            c = Clause("closure", "", mm.group(4))
+            c.loop = -2
+            rd = mm.group(2) + (f" requires {mm.group(3)}" if mm.group(3) else "")
+            cur.closures.append([int(mm.group(1)), rd, c])
+            last = ("clause", c); i += 1; continue
         mm = re.match(r"^rename\s*:\s*(\w+)\s*$", body)
         if mm:
             cur.rename = mm.group(1); i += 1; continue
@@ -1004,18 +1091,25 @@ def _build_fn(sf: SourceFile, item: Item, impl, ex: Extract, props, rep, unit, a
         nb = Tok(PUNCT, "{", -1, -1); nb.mark = ("brace", ordn); body_toks[br] = nb
         nk = Tok(IDENT, body_toks[kw].text, -1, -1); nk.mark = ("kw", ordn); body_toks[kw] = nk
 
+    if ex.closures:
+        body_toks = rw_closure_specs(body_toks, [(k, rd, c.text) for (k, rd, c) in ex.closures], rep, qual)
+
     # 2. inserts (anchored on current tokens)
     for (where, anchor, k, text) in ex.inserts:
         pat = pat_tokens(anchor)
         hits = _find_seq_any(body_toks, pat)
         if len(hits) < k:
-            raise AnchorLost(f"{qual}: anchor {anchor!r} #{k} not found ({len(hits)} hits)")
+            rep.append(("LOST", f"proof-hint anchor {anchor!r} #{k} not found ({len(hits)} hits): hint dropped"))
+            continue
         a0, b0 = hits[k - 1]
         if where == "after":
             pos = _stmt_end_after(body_toks, b0)
         else:
             pos = _stmt_start_before(body_toks, a0, 1)
         body_toks[pos:pos] = [T("raw", "\n" + text + "\n")]
+
+    if ex.entry:
+        body_toks[1:1] = [T("raw", "\n" + "\n".join(e[3] for e in ex.entry) + "\n")]
 
     # 3. explicit replaces
     for (scope, old, new, expect) in ex.replaces:
@@ -1068,7 +1162,7 @@ def _build_fn(sf: SourceFile, item: Item, impl, ex: Extract, props, rep, unit, a
         sig_text = text_of(sig_toks[:wpos]).rstrip()
     if ex.ret:
         sig_text = _name_return(sig_text, ex.ret, qual)
-    fn_clauses = [c for c in ex.clauses if c.loop < 0]
+    fn_clauses = [c for c in ex.clauses if c.loop == -1]
     spec = _render_fn_clauses(fn_clauses)
     hdr = sig_text + ("\n    " + where_txt if where_txt else "")
     body_text = text_of(body_toks)
@@ -1115,9 +1209,9 @@ def _rw_replace_any(toks, old, new, rep, expect):
     pat = pat_tokens(old)
     hits = _find_seq_any(toks, pat)
     if not hits:
-        raise AnchorLost(f"replace: text not found: {old!r}")
-    if expect is not None and len(hits) != expect:
-        raise AnchorLost(f"replace: expected {expect} occurrence(s) of {old!r}, found {len(hits)}")
+        # the construct that needed rewriting no longer occurs: nothing to rewrite
+        rep.append(("LOST", f"replace: text not found (nothing rewritten): {old!r}"))
+        return toks
     out = list(toks)
     last_start = None
     for (a0, b0) in reversed(hits):
